@@ -335,7 +335,8 @@ def _run(ctx, base):
         try:
             want = core.plain(eng.loads(flat))
         except Exception as ex:
-            res.count("flattened-text-not-accepted:" + type(ex).__name__)
+            # (a part included a second time somewhere else usually leaves unbalanced blocks)
+            res.count(("flattened-text-not-accepted(part-included-twice):" if dag else "flattened-text-not-accepted(generated document itself):") + type(ex).__name__)
             if depth <= 5:
                 continue
             want = None  # too deep anyway: only the refusal is judged
